@@ -38,6 +38,65 @@ impl TcpRes {
         self.syn.is_none() && self.syn_ack.is_none() && self.mtu.is_none() && self.client_uptime.is_none() && self.server_uptime.is_none()
     }
 }
+// ---------- rendering: what a user of the CLI / of `{}` sees must show the values the result carries ----------
+/// Every output type has a `Display` impl (the only form in which most users ever see a result). The reference is loose
+/// on purpose -- wording, labels and layout are free -- but the values themselves must appear, as separate tokens and in
+/// the order of the fields: endpoints first, then the type's own values. Checked on a sample of all results every check
+/// converts (the first 2000 per thread, then every 61st); issues are collected here and merged into the running check.
+static RENDER_ISSUES: std::sync::Mutex<std::collections::BTreeMap<String, (u64, String)>> = std::sync::Mutex::new(std::collections::BTreeMap::new());
+pub fn render_issues() -> Vec<(String, u64, String)> {
+    RENDER_ISSUES.lock().map(|g| g.iter().map(|(k, (n, e))| (k.clone(), *n, e.clone())).collect()).unwrap_or_default()
+}
+fn render_due() -> bool {
+    thread_local! { static N: std::cell::Cell<u64> = const { std::cell::Cell::new(0) }; }
+    N.with(|n| {
+        let v = n.get();
+        n.set(v + 1);
+        v < 2000 || v % 61 == 0
+    })
+}
+/// `tokens` (name, text) must occur in `shown` in this order, each delimited by non-alphanumeric characters
+fn render_check(kind: &str, shown: &str, tokens: &[(&str, String)]) {
+    let b = shown.as_bytes();
+    let mut cur = 0usize;
+    for (name, tok) in tokens {
+        if tok.is_empty() {
+            continue;
+        }
+        let t = tok.as_bytes();
+        let numeric = t.iter().all(|c| c.is_ascii_digit());
+        let mut found = None;
+        let mut from = cur;
+        while let Some(p) = shown.get(from..).and_then(|s| s.find(tok.as_str())).map(|p| p + from) {
+            let before = if p == 0 { b' ' } else { b[p - 1] };
+            let after = *b.get(p + t.len()).unwrap_or(&b' ');
+            let far_before = if p >= 2 { b[p - 2] } else { b' ' };
+            let far_after = *b.get(p + t.len() + 1).unwrap_or(&b' ');
+            let glued = before.is_ascii_alphanumeric() || after.is_ascii_alphanumeric() || (numeric && ((before == b'.' && far_before.is_ascii_digit()) || (after == b'.' && far_after.is_ascii_digit())));
+            if !glued {
+                found = Some(p + t.len());
+                break;
+            }
+            from = p + 1;
+            while !shown.is_char_boundary(from) {
+                from += 1;
+            }
+        }
+        match found {
+            Some(e) => cur = e,
+            None => {
+                if let Ok(mut g) = RENDER_ISSUES.lock() {
+                    let e = g.entry(format!("render/{kind}/{name}-not-shown")).or_insert((0, format!("value {tok:?} of field `{name}` does not appear (after the preceding fields) in: {shown:?}")));
+                    e.0 += 1;
+                }
+                return;
+            }
+        }
+    }
+}
+fn ends(s: &std::net::IpAddr, sp: u16, d: &std::net::IpAddr, dp: u16) -> Vec<(&'static str, String)> {
+    vec![("source-address", s.to_string()), ("source-port", sp.to_string()), ("destination-address", d.to_string()), ("destination-port", dp.to_string())]
+}
 fn ipport(ip: &std::net::IpAddr, port: u16) -> String {
     format!("{ip}:{port}")
 }
@@ -58,6 +117,38 @@ pub fn tcp_parts(
     server_uptime: Option<&huginn_net_tcp::output::UptimeOutput>,
 ) -> TcpRes {
     let mut t = TcpRes::default();
+    if render_due() {
+        if let Some(s) = syn {
+            let mut tk = ends(&s.source.ip, s.source.port, &s.destination.ip, s.destination.port);
+            if let Some(os) = &s.os_matched.os {
+                tk.push(("os-name", os.name.clone()));
+            }
+            tk.push(("signature", s.sig.matching.to_string()));
+            render_check("tcp-syn", &s.to_string(), &tk);
+        }
+        if let Some(s) = syn_ack {
+            let mut tk = ends(&s.source.ip, s.source.port, &s.destination.ip, s.destination.port);
+            if let Some(os) = &s.os_matched.os {
+                tk.push(("os-name", os.name.clone()));
+            }
+            tk.push(("signature", s.sig.matching.to_string()));
+            render_check("tcp-syn-ack", &s.to_string(), &tk);
+        }
+        if let Some(m) = mtu {
+            let mut tk = ends(&m.source.ip, m.source.port, &m.destination.ip, m.destination.port);
+            if let Some(l) = &m.link.link {
+                tk.push(("link", l.clone()));
+            }
+            tk.push(("mtu", m.mtu.to_string()));
+            render_check("tcp-mtu", &m.to_string(), &tk);
+        }
+        for u in [client_uptime, server_uptime].into_iter().flatten() {
+            let mut tk = vec![("role", format!("{:?}", u.role))];
+            tk.extend(ends(&u.source.ip, u.source.port, &u.destination.ip, u.destination.port));
+            tk.extend([("days", u.days.to_string()), ("hours", u.hours.to_string()), ("minutes", u.min.to_string()), ("wrap-days", u.up_mod_days.to_string()), ("frequency", format!("{:.2}", u.freq))]);
+            render_check("tcp-uptime", &u.to_string(), &tk);
+        }
+    }
     if let Some(s) = syn {
         t.src = Some(ipport(&s.source.ip, s.source.port));
         t.dst = Some(ipport(&s.destination.ip, s.destination.port));
@@ -164,7 +255,27 @@ pub fn req_obs(o: &huginn_net_http::ObservableHttpRequest) -> ReqSum {
 pub fn resp_obs(o: &huginn_net_http::ObservableHttpResponse) -> RespSum {
     RespSum { sig: o.to_string(), version: format!("{:?}", o.matching.version), headers: hdrs(&o.headers), status: o.status_code, ..Default::default() }
 }
+macro_rules! render_http {
+    ($r:expr) => {
+        if render_due() {
+            if let Some(q) = &$r.http_request {
+                let mut tk = ends(&q.source.ip, q.source.port, &q.destination.ip, q.destination.port);
+                if let Some(l) = &q.lang {
+                    tk.push(("language", l.clone()));
+                }
+                tk.push(("signature", q.sig.to_string()));
+                render_check("http-request", &q.to_string(), &tk);
+            }
+            if let Some(q) = &$r.http_response {
+                let mut tk = ends(&q.source.ip, q.source.port, &q.destination.ip, q.destination.port);
+                tk.push(("signature", q.sig.to_string()));
+                render_check("http-response", &q.to_string(), &tk);
+            }
+        }
+    };
+}
 pub fn http_res(r: &huginn_net_http::HttpAnalysisResult) -> HttpRes {
+    render_http!(r);
     let mut h = HttpRes::default();
     if let Some(q) = &r.http_request {
         let mut s = req_obs(&q.sig);
@@ -235,6 +346,14 @@ pub fn tls_client(c: &huginn_net_tls::ObservableTlsClient, t: &mut TlsRes) {
     t.fields = Some(format!("{:?}|{:?}|{:?}|{:04x?}|{:04x?}|{:04x?}|{:04x?}", c.version, c.sni, c.alpn, c.cipher_suites, c.extensions, c.signature_algorithms, c.elliptic_curves));
 }
 pub fn tls_out(o: &huginn_net_tls::TlsClientOutput) -> TlsRes {
+    if render_due() {
+        let mut tk = ends(&o.source.ip, o.source.port, &o.destination.ip, o.destination.port);
+        if let Some(sni) = &o.sig.sni {
+            tk.push(("sni", sni.clone()));
+        }
+        tk.extend([("ja4", o.sig.ja4.full.value().to_string()), ("ja4_r", o.sig.ja4.raw.value().to_string()), ("ja4_o", o.sig.ja4_original.full.value().to_string()), ("ja4_or", o.sig.ja4_original.raw.value().to_string())]);
+        render_check("tls-client", &o.to_string(), &tk);
+    }
     let mut t = TlsRes { src: Some(ipport(&o.source.ip, o.source.port)), dst: Some(ipport(&o.destination.ip, o.destination.port)), ..Default::default() };
     tls_client(&o.sig, &mut t);
     t
@@ -270,6 +389,7 @@ pub struct UniRes {
 }
 pub fn uni_res(r: &huginn_net::output::FingerprintResult) -> UniRes {
     let tcp = tcp_parts(r.tcp_syn.as_ref(), r.tcp_syn_ack.as_ref(), r.tcp_mtu.as_ref(), r.tcp_client_uptime.as_ref(), r.tcp_server_uptime.as_ref());
+    render_http!(r);
     let mut http = HttpRes::default();
     if let Some(q) = &r.http_request {
         let mut s = req_obs(&q.sig);
